@@ -8,8 +8,10 @@ Universe (all Ed25519 / Curve25519, generated once per process and inherited by 
   0 A     private key,  uid "Shared (c1) <a@x>",                     created t0
   1 Apub  the public half of A (same fingerprint, other key half)
   2 B     private key,  uid "Shared (c2) <a@x>"  (same name + e-mail as A, different key), created t0 + 1 d
-  3 C     private key,  uid "Carol (c1) <c@x>", two subkeys (Ed25519 sign, Curve25519 encrypt), created t0 + 2 d
-  4 D     public key,   uids "Dave" (no comment, no e-mail) and "Dave D (c1) <a@x>", created t0 (ties with A/Apub)
+  3 C     private key,  uids "Carol (c1) <c@x>" and "Carol (c1) <c@y>" (the key repeats its own name and comment),
+          two subkeys (Ed25519 sign, Curve25519 encrypt), created t0 + 2 d
+  4 D     public key,   uids "Dave" (no comment, no e-mail), "Dave D (c1) <a@x>", "Dave Again (c3) <a@x>" (the key
+          repeats an e-mail that A and B carry too), created t0 (ties with A/Apub)
 
 Operations
   L i : keyring.load(<key i>) where the input form is chosen by (position + i) % 3:
@@ -37,8 +39,11 @@ Invariant I(keyring), with `objs` = loaded primary objects (model) and `allk` = 
       id(k) -> k for exactly the objects of allk; _pubkeys/_privkeys hold exactly the ids of the loaded primaries of
       that half; for every k in allk and every alias it carries exactly one layer maps alias -> id(k)
   (f) load() returned the fingerprints of the key and its subkeys
+  (x) load() and unload() themselves do not raise (if one does, that is a failing case with the history as the case, and
+      (a)-(g) are still evaluated on what it left behind)
   (g) selection by PGPSignature / PGPMessage: for pre-built signatures and messages (signed by A, B, C, D; encrypted to
-      C's subkey; signed by A and encrypted to C), if a key that issued / can decrypt it is loaded, keyring.key(obj)
+      C's subkey; signed by A and then encrypted to C; encrypted to C and then signed OUTSIDE the encrypted container
+      by B, and by A), whose issuers / recipients are read by the independent packet reader, if a key that issued / can decrypt it is loaded, keyring.key(obj)
       yields a loaded object whose key id is among the issuers; otherwise nothing is selected (an exception)
 """
 import collections
@@ -68,14 +73,14 @@ class Universe(object):
     pass
 
 
-def _mk(name, comment, email, t, extra_uid=None, subs=False):
+def _mk(name, comment, email, t, extra_uid=None, subs=False, more_uids=()):
     P = dict(hashes=[HashAlgorithm.SHA256], ciphers=[SymmetricKeyAlgorithm.AES256],
              compression=[CompressionAlgorithm.ZLIB])
     k = pgpy.PGPKey.new(PubKeyAlgorithm.EdDSA, EllipticCurveOID.Ed25519, created=t)
     k.add_uid(pgpy.PGPUID.new(name, comment=comment, email=email), usage={KeyFlags.Certify, KeyFlags.Sign},
               created=t, **P)
-    if extra_uid:
-        k.add_uid(pgpy.PGPUID.new(extra_uid[0], comment=extra_uid[1], email=extra_uid[2]), created=t, **P)
+    for xu in ([extra_uid] if extra_uid else []) + list(more_uids):
+        k.add_uid(pgpy.PGPUID.new(xu[0], comment=xu[1], email=xu[2]), created=t, **P)
     if subs:
         sk = pgpy.PGPKey.new(PubKeyAlgorithm.EdDSA, EllipticCurveOID.Ed25519, created=t)
         k.add_subkey(sk, usage={KeyFlags.Sign}, created=t)
@@ -102,8 +107,9 @@ def universe():
     day = datetime.timedelta(days=1)
     A = _mk('Shared', 'c1', 'a@x', t0)
     B = _mk('Shared', 'c2', 'a@x', t0 + day)
-    C = _mk('Carol', 'c1', 'c@x', t0 + 2 * day, subs=True)
-    Dpriv = _mk('Dave', '', '', t0, extra_uid=('Dave D', 'c1', 'a@x'))
+    # C repeats its own name and comment on two user ids; D repeats one e-mail (which A and B carry too) on two
+    C = _mk('Carol', 'c1', 'c@x', t0 + 2 * day, subs=True, extra_uid=('Carol', 'c1', 'c@y'))
+    Dpriv = _mk('Dave', '', '', t0, extra_uid=('Dave D', 'c1', 'a@x'), more_uids=[('Dave Again', 'c3', 'a@x')])
     u = Universe()
     u.keys = [A, A.pubkey, B, C, Dpriv.pubkey]
     u.bytes = [bytes(k) for k in u.keys]
@@ -116,7 +122,8 @@ def universe():
         assert sorted(f) == sorted(mine), 'independent fingerprints differ from PGPy: %r %r' % (f, mine)
         u.fprs.append(mine)
     u.uidparts = [(('Shared', 'c1', 'a@x'),), (('Shared', 'c1', 'a@x'),), (('Shared', 'c2', 'a@x'),),
-                  (('Carol', 'c1', 'c@x'),), (('Dave', '', ''), ('Dave D', 'c1', 'a@x'))]
+                  (('Carol', 'c1', 'c@x'), ('Carol', 'c1', 'c@y')),
+                  (('Dave', '', ''), ('Dave D', 'c1', 'a@x'), ('Dave Again', 'c3', 'a@x'))]
     for k, parts in zip(u.keys, u.uidparts):
         assert sorted((x.name, x.comment, x.email) for x in k.userids) == sorted(parts), 'uid parts'
     u.all_idents = set()
@@ -134,16 +141,54 @@ def universe():
         m = pgpy.PGPMessage.new('selected message')
         m |= key.sign(m)
         u.select.append(('message signed' + nm[3:], m, set(owner)))
+    allf = [f for fl in u.fprs for f in fl]
+
+    def owners_of(msg):
+        """fingerprints of the universe that a message names as recipient (public-key session key packets) or as
+        issuer of a signature / one-pass signature packet visible outside any encrypted container; read from the
+        binary message by the independent packet reader, not from PGPMessage.issuers"""
+        import specs.indep as indep
+        ids = set()
+        todo = list(indep.packets(bytes(msg)))
+        while todo:
+            tag, body, _raw = todo.pop(0)
+            if tag == 8:                                  # compressed data: look inside
+                todo = list(indep.packets(indep.decompress(body))) + todo
+            elif tag == 1:
+                ids.add(body[1:9].hex().upper())
+            elif tag == 4:
+                ids.add(body[4:12].hex().upper())
+            elif tag == 2:
+                sg = indep.signature(body)
+                for typ, _crit, val in sg['hashed'] + sg['unhashed']:
+                    if typ == 16:
+                        ids.add(val.hex().upper())
+                    elif typ == 33:
+                        ids.add(val[1:].hex().upper()[-16:])
+        return {f for f in allf if f[-16:] in ids}
+
+    for nm, obj, own in u.select:
+        if isinstance(obj, pgpy.PGPMessage):
+            assert owners_of(obj) == own, 'independent reading of the issuers of %s differs' % nm
     enc = C.pubkey.encrypt(pgpy.PGPMessage.new('secret'))
-    encowner = {f for f in fC if f[-16:] in enc.encrypters}
-    assert len(encowner) == 1
+    encowner = owners_of(enc)
+    assert len(encowner) == 1 and encowner <= set(fC[1:])
     u.select.append(('message encrypted to C', enc, encowner))
     m = pgpy.PGPMessage.new('both')
     m |= A.sign(m)
-    both = C.pubkey.encrypt(m)
-    # an encrypted message hides its signatures: issuers are the recipients only (recorded, not assumed)
-    u.select.append(('message signed by A, encrypted to C', both,
-                     {f for f in fC + [fA] if f[-16:] in both.issuers}))
+    inner = C.pubkey.encrypt(m)
+    # signed, then encrypted: the signature is inside the encrypted container; only the recipient is visible
+    assert owners_of(inner) == encowner
+    u.select.append(('message signed by A, then encrypted to C', inner, encowner))
+    # encrypted, then signed: the signature travels outside the encrypted container (both are visible); re-read from
+    # the armored text as a receiver would
+    for nm, signer, fs in (('B', B, fB), ('A', A, fA)):
+        outer = C.pubkey.encrypt(pgpy.PGPMessage.new('encrypted, then signed'))
+        outer |= signer.sign(outer)
+        outer = pgpy.PGPMessage.from_blob(str(outer))
+        assert outer.is_encrypted and outer.is_signed
+        assert owners_of(outer) == encowner | {fs}, 'outer-signed message: %r' % (owners_of(outer),)
+        u.select.append(('message encrypted to C, then signed by %s' % nm, outer, encowner | {fs}))
     _U = u
     return u
 
@@ -217,30 +262,37 @@ def form_of(pos, i):
 
 
 def apply_op(kr, model, pos, op, probs):
-    """perform one operation on the real keyring and on the model; append problems"""
+    """perform one operation on the real keyring and on the model; append problems.  An exception raised by load() or
+    unload() itself is a problem ('(x) ...'); the model is still updated as if the operation had completed, so that
+    the invariant evaluated afterwards shows what the aborted operation left behind"""
     u = universe()
     kind, i = op
     if kind == 'L':
         form = form_of(pos, i)
         before = set(kr._keys)
+        ret = None
+        try:
+            ret = kr.load(u.keys[i] if form == 'object' else u.bytes[i] if form == 'bytes' else u.armor[i])
+        except Exception as ex:
+            probs.append('(x) load(%s as %s) raised %s: %s' % (NAMES[i], form, type(ex).__name__, str(ex)[:60]))
         if form == 'object':
-            ret = kr.load(u.keys[i])
             if not any(o is u.keys[i] for o in model.inst[i]):
                 model.inst[i].append(u.keys[i])
         else:
-            ret = kr.load(u.bytes[i] if form == 'bytes' else u.armor[i])
             new = [kr._keys[p] for p in kr._keys if p not in before and kr._keys[p].parent is None]
             if len(new) != 1:
                 probs.append('load from %s added %d new primary objects' % (form, len(new)))
             else:
                 model.inst[i].append(new[0])
-        if sorted(str(f) for f in ret) != sorted(u.fprs[i]):
+        if ret is not None and sorted(str(f) for f in ret) != sorted(u.fprs[i]):
             probs.append('(f) load returned %r' % (sorted(str(f) for f in ret),))
     else:
-        if model.inst[i]:
-            kr.unload(model.inst[i].pop())
-        else:
-            kr.unload(u.keys[i])          # not loaded: must be a silent no-op, the full invariant is checked after
+        # a key that is not loaded: unload must be a silent no-op (the full invariant is checked afterwards)
+        target = model.inst[i].pop() if model.inst[i] else u.keys[i]
+        try:
+            kr.unload(target)
+        except Exception as ex:
+            probs.append('(x) unload(%s) raised %s: %s' % (NAMES[i], type(ex).__name__, str(ex)[:60]))
 
 
 def check(kr, model, filters=True):
@@ -397,7 +449,7 @@ def step(hist, kr, model, acc):
     if probs:
         acc.nfail += 1
         if len(acc.fail) < 5:
-            acc.fail.append((hist, probs[:4]))
+            acc.fail.append((hist, probs[:6]))
 
 
 def replay(hist, acc=None, check_each=True):
@@ -437,23 +489,21 @@ def observable(kr, model):
 
 
 def task_prefix(args):
-    """all histories starting with (op1, op2), length 2..maxlen; the length-1 history (op1,) when op2 is OPS[0]"""
-    op1, op2, maxlen = args
+    """all histories that start with the given prefix of 3 operations, up to length maxlen; a proper prefix of it is
+    evaluated (and counted) here only when the rest of the prefix is OPS[0], so that every history is a case once"""
+    prefix, maxlen = args
     universe()
     NOTES.clear()
     acc = Acc()
     acc.leaf = maxlen
     kr = pgpy.PGPKeyring()
     model = Model()
-    h1 = (op1,)
-    if op2 == OPS[0]:
-        step(h1, kr, model, acc)
-    else:
-        apply_op(kr, model, 0, op1, [])
-    if maxlen >= 2:
-        h2 = (op1, op2)
-        step(h2, kr, model, acc)
-        dfs(h2, snapshot(kr), model, maxlen, acc)
+    for n in range(1, len(prefix) + 1):
+        if all(op == OPS[0] for op in prefix[n:]):
+            step(prefix[:n], kr, model, acc)
+        else:
+            apply_op(kr, model, n - 1, prefix[n - 1], [])
+    dfs(prefix, snapshot(kr), model, maxlen, acc)
     return acc.cases, acc.nontrivial, acc.nfail, acc.fail, acc.maxdepth, acc.maxobjs, dict(NOTES)
 
 
@@ -500,7 +550,7 @@ def component(tier='quick', seed=0, known=()):
     rng = random.Random(seed)
     wseeds = [rng.randrange(1 << 30) for _ in range(nwalks)]
     ctx = multiprocessing.get_context('fork')
-    tasks = [(a, b, maxlen) for a in OPS for b in OPS]
+    tasks = [((a, b, c), maxlen) for a in OPS for b in OPS for c in OPS]
     cases = nontriv = nfail = 0
     fails = []
     maxdepth = maxobjs = 0
@@ -509,7 +559,7 @@ def component(tier='quick', seed=0, known=()):
         # cross-check of the snapshot mechanism on a seeded sample of histories
         xs = [tuple(rng.choice(OPS) for _ in range(rng.randint(2, 8))) for _ in range(160)]
         a_w = pool.map_async(task_walk, [(s, wlen) for s in wseeds], chunksize=1)
-        a_p = pool.map_async(task_prefix, tasks, chunksize=1)
+        a_p = pool.map_async(task_prefix, tasks, chunksize=4)
         a_x = pool.map_async(task_crosscheck, [xs[i::16] for i in range(16)], chunksize=1)
         res_p, res_w, res_x = a_p.get(), a_w.get(), a_x.get()
     enum_cases = 0
@@ -529,7 +579,12 @@ def component(tier='quick', seed=0, known=()):
     if xbad:
         violations.append({'case': {'history': fmt_hist(xbad[0])},
                            'what': 'harness error: snapshot-driven state differs from a from-scratch replay'})
+    fails.sort(key=lambda hp: (len(hp[0]), hp[0]))          # shortest history first: the minimal repro is reported
+    seen_h = set()
     for hist, probs in fails:
+        if hist in seen_h:
+            continue
+        seen_h.add(hist)
         case = {'history': fmt_hist(hist), 'ops': [[k, NAMES[i]] for k, i in hist], 'problems': probs,
                 'clause': probs[0][1:2] if probs and probs[0].startswith('(') else ''}
         f = match_known(case, known)
